@@ -1,4 +1,5 @@
 import Abyss.Props.C10
+import Abyss.Lemmas.ChainL
 #print axioms Abyss.C10_u64_roundtrip
 #print axioms Abyss.C10_i64_roundtrip
 #print axioms Abyss.C10_vu64_roundtrip
@@ -10,3 +11,15 @@ import Abyss.Props.C10
 #print axioms Abyss.C10_typed_history
 #print axioms Abyss.Vu64.decode_encode
 #print axioms Abyss.Vu64.encode_inj
+#print axioms Abyss.Gen.cmpBytes_eq_iff
+#print axioms Abyss.Gen.cmpU8U64_eq
+#print axioms Abyss.Gen.cmpU8I64_eq
+#print axioms Abyss.Gen.cmpU8String_eq
+#print axioms Abyss.Gen.cmpU8Bytes_eq
+#print axioms Abyss.Gen.cmpU8Vu64_eq
+#print axioms Abyss.Gen.keyToU64_eq
+#print axioms Abyss.Gen.keyToI64_eq
+#print axioms Abyss.Gen.u64ToKey_eq
+#print axioms Abyss.Gen.i64ToKey_eq
+#print axioms Abyss.Gen.vu64ToKey_eq
+#print axioms Abyss.Store.cmpKey_ok
